@@ -920,7 +920,13 @@ func (w *World) Retrans(peer, kind string, seq uint32, txMs []int, mode string, 
 		txMs = []int{}
 	}
 
-	w.emit(map[string]interface{}{"ev": "retrans", "peer": peer, "kind": kind, "seq": pfcpx.V32(uint64(seq)), "tx": txMs, "mode": mode, "k": k, "dead": dead, "n": n, "tMs": tMs})
+	// slow: the scripted peer's own answer left later than half a time-out after the request had arrived (this process
+	// was not scheduled in time): whether the agent stopped on that answer cannot be judged
+	lat := w.Peer(peer).AnswerLatency(seq)
+	slow := lat > time.Duration(tMs)*time.Millisecond/2
+
+	w.emit(map[string]interface{}{"ev": "retrans", "peer": peer, "kind": kind, "seq": pfcpx.V32(uint64(seq)), "tx": txMs, "mode": mode, "k": k, "dead": dead, "n": n, "tMs": tMs,
+		"slow": slow, "latUs": int(lat / time.Microsecond)})
 	w.Steps++
 }
 
